@@ -239,7 +239,11 @@ class Prop(fw.PropBase):
         'schedule theorems: valid fragments arrive with starts stepping back at most `lag` within a contig, contigs in '
         'contiguous blocks, 0 <= end-start <= L, 0 <= radius and 2*(L+lag+assignment_radius) <= cache_size '
         '(start-sorted input: lag=0, i.e. L+radius <= cache_size/2; mate-pair arrival order: lag<=L). The property text '
-        'says "shorter than the cache radius": fragments longer than cache_size/2 do change the partition (see search notes)',
+        'says "shorter than the cache radius (cache_size)": can_be_yielded uses a margin of cache_size/2, and fragments between '
+        'cache_size/2 and cache_size do change the partition (Example C07_gap_refuted, known finding replayed by replay_known, '
+        'measured in coverage.info_gap_start_sorted_inequality_fails_but_L_below_cache_size)',
+        'theorems compare molecules within one pooling method; pooling_method 0 (member-wise comparison) and 1 (comparison with '
+        'the molecule aggregate span / majority UMI) can group differently by design (coverage.info_pooling_difference_example)',
     ]
 
     def regen(self):
@@ -369,6 +373,24 @@ class Prop(fw.PropBase):
                 out.append({'frags': frags, 'cls': 'Fragment', 'cfgs': self.all_schedules(base, n)})
         return out
 
+    def small_exhaustive_rel(self, nmax):
+        """every start-sorted library of <= nmax fragments (one cell, one UMI, one contig, cache 40) over
+        {gap 0|3|23} x {end = start+2 | start+20 | the end of the library's first fragment}"""
+        out = []
+        for n in range(2, nmax + 1):
+            for combo in itertools.product([(g, e) for g in (0, 3, 23) for e in ('short', 'long', 'first')], repeat=n):
+                pos, frags, first_end = 100, [], None
+                for g, e in combo:
+                    pos += g
+                    end = pos + 2 if e == 'short' else pos + 20 if e == 'long' else \
+                        (first_end if first_end is not None and first_end > pos else pos + 2)
+                    if first_end is None:
+                        first_end = end
+                    frags.append({'chrom': 0, 'sm': 0, 'rx': 'AAA', 'qcfail': False, 'r1': [pos, end - pos, False], 'r2': None})
+                base = {'cache': 40, 'radius': 0, 'hd': 0, 'yield_invalid': False}
+                out.append({'frags': frags, 'cls': 'Fragment', 'cfgs': self.all_schedules(base, n)})
+        return out
+
     def cases(self):
         quick = self.tier == 'quick'
         out = self.corpus_cases()
@@ -380,7 +402,7 @@ class Prop(fw.PropBase):
             out.append(self.gen_case(self.rng, n, regime))
         for k in range(150 if quick else 2000):
             out.append(self.gen_scenario(self.rng))
-        ex = self.small_exhaustive(3 if quick else 4)
+        ex = self.small_exhaustive(3 if quick else 4) + self.small_exhaustive_rel(3 if quick else 4)
         self.n_exhaustive = len(ex)
         return out + ex
 
@@ -427,8 +449,8 @@ class Prop(fw.PropBase):
                 n_pre += ok
                 pre_inputs.append((inp + [L, lag], 1 if ok else 0))
                 # the gap between the theorem's inequality and the property's wording ("shorter than the cache radius"):
-                # everything of the precondition holds except the inequality, and L < cache_size
-                if not ok and L < cfg['cache'] and run['error'] is None and pre_py(absf, dict(cfg, cache=10 ** 12))[0]:
+                # start-sorted (lag = 0), everything of the precondition holds except the inequality, and L < cache_size
+                if not ok and lag == 0 and L < cfg['cache'] and run['error'] is None and pre_py(absf, dict(cfg, cache=10 ** 12))[0]:
                     gap['runs'] += 1
                     if cfg['pooling'] in never and partition(run) != never[cfg['pooling']]:
                         gap['schedule_dependent_runs'] += 1
@@ -450,14 +472,15 @@ class Prop(fw.PropBase):
             'runs_raising': n_err,
             'info_libraries_where_pooling_0_and_1_differ_without_ejection': n_pool_differ,
             'info_pooling_difference_example': pool_example,
-            'info_gap_inequality_fails_but_L_below_cache_size': gap,
+            'info_gap_start_sorted_inequality_fails_but_L_below_cache_size': gap,
             'precondition_hit_rate': round(n_pre / max(1, len(inputs)), 4),
             'library_size_histogram': {str(k): v for k, v in sorted(hist_n.items())},
             'schedules': 'every library is run for check_eject_every in {None, 0..n} x pooling_method {0,1} (all schedules '
                          'that differ for n fragments)',
             'exhaustive': False,
             'exhaustive_scope': 'all libraries of <= %d single-end fragments over {gap 0|23} x {length 2|12} x {umi AAA|CCC}, '
-                          'cache 40, every schedule, both pooling methods' % (3 if self.tier == 'quick' else 4),
+                          'cache 40, and of 2..%d start-sorted fragments over {gap 0|3|23} x {end start+2|start+20|end of the first fragment}; '
+                                'every schedule, both pooling methods' % ((3 if self.tier == 'quick' else 4,) * 2),
             'samples': [{'input': {'cfg': index[i][1], 'abs': res[index[i][0]]['abs']}, 'impl': impl_out[i]}
                         for i in (0, len(inputs) // 2, len(inputs) - 1) if i < len(inputs)],
         })
